@@ -23,7 +23,7 @@ MANIFEST = {
     'technique': 'deductive: VCs from the real AST of _uniqify_labels, _get_states_array, radial_distribution_between_species + an injectivity '
                  'lemma; z3/cvc5; finite-scope counter-models replayed natively; brute-force triple-loop oracle as bounded stand-in',
 }
-UNITS = ['unit_uniqify', 'unit_code_injective', 'unit_states_array', 'unit_between_species']
+UNITS = ['unit_uniqify', 'unit_code_injective', 'unit_states_array', 'unit_between_species', 'unit_dep_ffill', 'unit_dep_bfill', 'unit_dep_prev_next']
 BOUNDED = ['bounded_rdf']
 META = {
     'clauses': {'C11.uniq': 'P', 'C11.code': 'P (injectivity lemma) + B (_get_states name table)', 'C11.sem': 'P given C11.uniq and C03 prev/next',
@@ -166,6 +166,22 @@ def unit_states_array(tier):
     u.prove_function('gemdat.rdf', '_get_states_array', setup, post, raises=(),
                      replay={'fn': 'verif.props.c11:replay_rdf', 'sizes': lambda st: [], 'concretise': lambda m, st, ob: {'seed': 2}})
     return u
+
+
+def unit_dep_ffill(tier):
+    """C11.sem rests on the contract of states_prev (ffill): its obligations are re-discharged here (modular dependency)."""
+    from verif.props.c03 import unit_ffill
+    return unit_ffill(tier)
+
+
+def unit_dep_bfill(tier):
+    from verif.props.c03 import unit_bfill
+    return unit_bfill(tier)
+
+
+def unit_dep_prev_next(tier):
+    from verif.props.c03 import unit_prev_next
+    return unit_prev_next(tier)
 
 
 def unit_between_species(tier):
@@ -321,8 +337,22 @@ def replay_rdf(inputs):
     except Exception as e:
         return {'reproduced': bool(bad), 'detail': f'seed={seed}: transitions failed ({type(e).__name__}) - per-state part skipped; ' + '; '.join(bad)}
     rd = radial_distribution(transitions=tr, floating_specie='Li', max_dist=max_dist, resolution=res)
-    states, prev, nxt = tr.states, tr.states_prev(), tr.states_next()
+    states = tr.states
     T, N = states.shape
+    # independent oracle for the previous / next visited site (not the library's own views)
+    prev = np.full_like(states, -1)
+    nxt = np.full_like(states, -1)
+    for a in range(N):
+        last = -1
+        for t in range(T):
+            if states[t, a] != -1:
+                last = states[t, a]
+            prev[t, a] = last
+        last = -1
+        for t in range(T - 1, -1, -1):
+            if states[t, a] != -1:
+                last = states[t, a]
+            nxt[t, a] = last
     coords = traj.positions
     sp = traj.filter('Li').positions
     symbols = [s.symbol for s in traj.species]
